@@ -212,7 +212,7 @@ def build_ocaml(name, extract_v, mains):
     for m in ["common.ml"] + mains:
         with open(os.path.join(VERIF, "ocaml", m)) as f, open(os.path.join(odir, m), "w") as g:
             g.write(f.read())
-    mls = sorted(fn for fn in os.listdir(odir) if fn.endswith("_model.ml"))
+    mls = [name + "_model.ml"]
     srcs = ["common.ml"]
     for ml in mls:
         srcs += [ml + "i", ml]
@@ -224,14 +224,21 @@ def build_ocaml(name, extract_v, mains):
     return exe
 
 
-# (name, Extract/<file>.v, [ocaml mains]) of every extracted model driver; bin/setup builds them all
-OCAML_DRIVERS = [
-    ("codec", "ExtractCodec.v", ["codec_main.ml"]),
-]
+# Extracted model drivers are discovered by convention:
+#   ocaml/<name>_main.ml  +  coq/Extract/Extract_<name>.v (which must `Extraction "<name>_model.ml" ...`)
+def ocaml_drivers():
+    out = []
+    d = os.path.join(VERIF, "ocaml")
+    for fn in sorted(os.listdir(d)):
+        if fn.endswith("_main.ml"):
+            name = fn[:-len("_main.ml")]
+            out.append((name, "Extract_%s.v" % name, [fn]))
+    return out
 
 
 def driver(name):
-    for n, ev, mains in OCAML_DRIVERS:
+    """path of build/modelrun_<name>, (re)built when the model, the extraction or the glue changed"""
+    for n, ev, mains in ocaml_drivers():
         if n == name:
             return build_ocaml(n, ev, mains)
     raise KeyError(name)
